@@ -96,6 +96,10 @@ func runC03(ctx *core.Ctx, idx int) *core.Result {
 	res := &core.Result{}
 	r := ctx.Rand("c03", idx)
 	g := gen.NewG(r)
+	if idx%25 == 7 {
+		parenCopyCase(ctx, idx, res, g)
+		return res
+	}
 	switch idx % 5 {
 	case 0, 1:
 		// instantiate with multiplicities / precedence
@@ -321,4 +325,68 @@ func runC03(ctx *core.Ctx, idx int) *core.Result {
 		semBatchSeq(ctx, idx, res, []*gen.Change{d1, d2}, srcs, extra, idx%20 == 4, "C03")
 	}
 	return res
+}
+
+// parenCopyCase: the code a metavariable stood for is copied as it is, enclosing parentheses included (the tree
+// comparison of the other streams looks through redundant parentheses; here the text is compared). Reference-free: one
+// site per function, the copy is looked for in the rewritten function.
+func parenCopyCase(ctx *core.Ctx, idx int, res *core.Result, g *gen.G) {
+	r := g.R
+	pats := [][2]string{
+		{"-!x\n+isFalse(x)\n", "!%s"},
+		{"-tgtWrap(x)\n+replWrap(x, 1)\n", "tgtWrap(%s)"},
+		{"-tgtEq(x, y)\n+y == x\n", "tgtEq(%s, other)"},
+		{"-x == nilValue\n+isNil(x)\n", "%s == nilValue"},
+	}
+	p := pats[r.Intn(len(pats))]
+	patch := "@@\nvar x, y expression\n@@\n" + p[0]
+	inner := []string{"a && b", "f(1)", "<-ch", "T{1}", "a + b*c", "x.y", "*p", "-v", "func() int { return 1 }()"}
+	var src strings.Builder
+	src.WriteString("package p\n\n")
+	var want []string
+	n := 2 + r.Intn(5)
+	for i := 0; i < n; i++ {
+		in := inner[r.Intn(len(inner))]
+		filler := "(" + in + ")"
+		if r.Intn(4) == 0 {
+			// without parentheses (a primary expression, so that the site parses the same way)
+			filler = []string{"f(1)", "x.y", "T{1}", "v", "m[k]"}[r.Intn(5)]
+		}
+		fmt.Fprintf(&src, "func f%d() {\n\tuse(%s)\n}\n\n", i, fmt.Sprintf(p[1], filler))
+		want = append(want, filler)
+	}
+	in := src.String()
+	if !gen.Parses(in) {
+		res.Inconcl++
+		return
+	}
+	runs := applyAPI(patch, []string{in})
+	res.Evals++
+	run := runs[0]
+	rep := replayFiles(patch, in, run.Out)
+	if run.Pan != "" {
+		res.Violate("C03/engine-panic:"+core.PanicSignature(run.Pan), run.Pan, rep)
+		return
+	}
+	if run.Err != "" {
+		res.Violate("C03/engine-error", "parenthesised binding: "+run.Err, rep)
+		return
+	}
+	squash := func(s string) string { return strings.Join(strings.Fields(s), "") }
+	funcs := strings.Split(run.Out, "\nfunc ")
+	if len(funcs) != n+1 {
+		res.Violate("C03/wrong-rewrite", fmt.Sprintf("%d functions in, %d out", n, len(funcs)-1), rep)
+		return
+	}
+	for i, w := range want {
+		body := squash(funcs[i+1])
+		if !strings.Contains(body, squash(w)) {
+			res.Violate("C03/binding-not-copied-identically", fmt.Sprintf("function f%d: the metavariable stood for %q, which is not in the rewritten code %q", i, w, core.Trunc(funcs[i+1], 120)), rep)
+			return
+		}
+		if strings.HasPrefix(w, "(") && !strings.Contains(w, "func()") && !strings.Contains(body, squash(w)) {
+			return
+		}
+	}
+	res.Sig("paren-copy", p[0], n)
 }
